@@ -64,3 +64,42 @@ class Breakpoint:
 class Command:
     def __init__(self, name=None, *a, **k):
         command_objects.append((name, self))
+
+
+# gdb.events: registries the plugin may connect handlers to; the driver fires them (fire('exited', exit_code=0))
+class _Registry:
+    def __init__(self):
+        self.handlers = []
+
+    def connect(self, f):
+        self.handlers.append(f)
+
+    def disconnect(self, f):
+        if f in self.handlers:
+            self.handlers.remove(f)
+
+
+class _Events:
+    def __getattr__(self, name):
+        if name.startswith('_'):
+            raise AttributeError(name)
+        r = _Registry()
+        setattr(self, name, r)
+        return r
+
+
+events = _Events()
+
+
+def fire(name, **attrs):
+    ev = type('Event', (), attrs)()
+    for f in list(getattr(events, name).handlers):
+        f(ev)
+
+
+class error(Exception):
+    pass
+
+
+class MemoryError(error):
+    pass
